@@ -1,0 +1,49 @@
+//go:build verif
+
+package b1t8
+
+// Machine-checked contracts for this package (read by /verif/govc; comment-only, compiled only
+// with -tags verif). See /verif/DESIGN.md.
+
+//@ props C14
+
+//@ spec bit01(t int8) bool = t == 0 || t == 1
+
+//@ func EncodedLen(n int) (r int)
+//@   requires 0 <= n && n <= (1<<63-1)/8
+//@   ensures  r == 8*n
+//@   panics   never
+
+//@ func DecodedLen(n int) (r int)
+//@   requires 0 <= n
+//@   ensures  r == n/8
+//@   panics   never
+
+//@ func Encode(dst trinary.Trits, src []byte) (n int)
+//@   requires len(dst) >= 8*len(src)
+//@   ensures  n == 8*len(src)
+//@   ensures  forall(k, 0, len(src), forall(m, 0, 8, dst[8*k+m] == int8((src[k]>>m)&1)))
+//@   modifies dst[0:8*len(src)]
+//@   panics   never
+//@   loop 1 invariant 0 <= _i1 && _i1 <= len(src) && off(dst) == 8*_i1 && len(dst) == len(old(dst)) - 8*_i1 && cap(dst) == cap(old(dst)) - 8*_i1
+//@   loop 1 invariant forall(k, 0, _i1, forall(m, 0, 8, old(dst)[8*k+m] == int8((src[k]>>m)&1)))
+//@   loop 1 invariant forall(k, 8*_i1, cap(old(dst)), old(dst)[k] == old(dst[k]))
+
+//@ func Decode(dst []byte, src trinary.Trits) (n int, err error)
+//@   repr byte int8 uint
+//@   requires len(dst) >= len(src)/8
+//@   ensures  isnil(err) == (len(src)%8 == 0 && forall(k, 0, len(src), bit01(src[k])))
+//@   ensures  0 <= n && n <= len(src)/8
+//@   ensures  implies(isnil(err), n == len(src)/8)
+//@   ensures  forall(k, 0, 8*n, bit01(src[k]))
+//@   ensures  forall(k, 0, n, forall(m, 0, 8, (dst[k]>>m)&1 == byte(src[8*k+m])))
+//@   ensures  implies(n < len(src)/8, exists(m, 0, 8, !bit01(src[8*n+m])))
+//@   ensures  is(err, ErrInvalidTrit) == exists(k, 0, len(src), !bit01(src[k]))
+//@   ensures  implies(!isnil(err) && !is(err, ErrInvalidTrit), is(err, ErrInvalidLength))
+//@   modifies dst[0:len(src)/8]
+//@   panics   never
+//@   loop 1 invariant 0 <= i && off(src) == 8*i && len(src) == len(old(src)) - 8*i
+//@   loop 1 invariant forall(k, 0, 8*i, bit01(old(src)[k]))
+//@   loop 1 invariant forall(k, 0, i, forall(m, 0, 8, (dst[k]>>m)&1 == byte(old(src)[8*k+m])))
+//@   loop 1 invariant forall(k, i, cap(dst), dst[k] == old(dst[k]))
+//@   loop 2 invariant 0 <= _i2 && _i2 <= len(src) && forall(k, 0, _i2, bit01(src[k]))
